@@ -46,6 +46,21 @@ Definition round (g : list gwnode) : list gwnode := filter (fun x => is_via g (g
 Fixpoint rounds (fuel : nat) (g : list gwnode) : nat :=
   match fuel with O => 0 | S f => match g with [] => 0 | _ => S (rounds f (round g)) end end.
 
+(* the whole loop with the list Group._gateways_to_join: gateways that were exit()ed (by terminate itself or by the user before)
+   and are still to be joined / killed.  joins_pending = the loop also runs while only such gateways are left. *)
+Record gstate := { members : list gwnode; tojoin : list nat; joined : list nat }.
+Definition exiting (g : list gwnode) : list gwnode := filter (fun x => negb (is_via g (gid x))) g.
+Definition tpass (s : gstate) : gstate :=
+  {| members := round (members s); tojoin := []; joined := joined s ++ tojoin s ++ map gid (exiting (members s)) |}.
+Fixpoint terminate_loop (joins_pending : bool) (fuel : nat) (s : gstate) : gstate :=
+  match fuel with
+  | O => s
+  | S f => match members s, (if joins_pending then tojoin s else []) with
+           | [], [] => s
+           | _, _ => terminate_loop joins_pending f (tpass s)
+           end
+  end.
+
 (* ---------- (2) the worker after EOF (WorkerGateway._terminate_execution, serve) ---------- *)
 Inductive reaction := Unwinds | Swallows.
 Record task := { ends : otime; in_main : bool; on_int : reaction }.
